@@ -23,7 +23,8 @@ ASSUMPTIONS = ['hypotheses allowed in a result = hypotheses of ProofTerm / Thm o
                're-checked by exact evaluation at random points']
 REQUIRED = {'quick': {'outer_calls_judged': 4000, 'exports_checked': 300, 'canon_pairs:nat': 150, 'canon_pairs:int': 150,
                       'canon_pairs:real': 150, 'canon_pairs:prop': 300, 'lib_outer_calls': 300, 'levels_pairs': 60,
-                      'levels_order:limited-first': 20, 'levels_order:full-first': 20},
+                      'levels_order:limited-first': 20, 'levels_order:full-first': 20,
+                      'comb_terms_with_binder_named_like_a_free_variable': 60},
             'thorough': {'outer_calls_judged': 80000, 'exports_checked': 6000, 'canon_pairs:nat': 3000, 'canon_pairs:int': 3000,
                          'canon_pairs:real': 3000, 'canon_pairs:prop': 6000, 'lib_outer_calls': 10000, 'levels_pairs': 2000,
                          'levels_order:limited-first': 700, 'levels_order:full-first': 700}}
@@ -493,6 +494,21 @@ def run_comb(ctx, spec):
             S.typeof(s)
         except S.ShadowError:
             continue
+        if rng.random() < 0.5:
+            # binders renamed (alpha-equivalently) to the names of variables that occur FREE in the term: a traversal
+            # that opens an abstraction under its recorded name would identify the two
+            free = [a for a in S.atoms(s) if a[0] == 'var']
+            if free:
+                def clash(t):
+                    if t[0] == 'comb':
+                        return ('comb', clash(t[1]), clash(t[2]))
+                    if t[0] == 'abs':
+                        same = [a[1] for a in free if a[2] == t[2]] or [a[1] for a in free]
+                        nm = rng.choice(same) if rng.random() < 0.7 else t[1]
+                        return ('abs', nm, t[2], clash(t[3]))
+                    return t
+                s = clash(s)
+                ctx.count('comb_terms_with_binder_named_like_a_free_variable')
         inner = rng.choice([C.beta_conv(), C.beta_norm_conv(), C.try_conv(C.beta_conv()), C.try_conv(C.eta_conv())] +
                            [C.try_conv(C.rewr_conv(t)) for t in thms] + [C.try_conv(C.rewr_conv(t, sym=True)) for t in thms[:3]])
         wrap = rng.choice([lambda c: c, C.top_conv, C.bottom_conv, C.top_sweep_conv, C.sub_conv, lambda c: C.try_conv(C.abs_conv(c)),
